@@ -486,6 +486,38 @@ func (k *checker) readPaths(want []pred.Row, matching []pred.Row) {
 			k.add("Count=%d, Find returns %d rows", n, len(matching))
 		}
 	}
+	// the pagination idiom: Count, then keep chaining on the handle Count returned (gorm
+	// restores what Count changed for exactly this use); with and without a Session in front
+	if len(cc.calls) == 0 && cc.order != "" {
+		for _, viaSession := range []bool{false, true} {
+			h := cc.build(root.Model(&pred.Row{}))
+			if viaSession {
+				h = h.Session(&gorm.Session{})
+			}
+			var n int64
+			tx := h.Count(&n)
+			if tx.Error != nil {
+				k.add("Count error %v", tx.Error)
+				continue
+			}
+			kk := len(matching)/2 + 1
+			var page []pred.Row
+			if res := tx.Limit(kk).Find(&page); res.Error != nil {
+				k.add("Find after Count error %v", res.Error)
+			} else {
+				w := matching
+				if len(w) > kk {
+					w = w[:kk]
+				}
+				if !rowsEq(page, w) {
+					k.add("Count(&n).Limit(%d).Find (session in front: %v) returned ids %v, the chain without Count returns %v", kk, viaSession, ids(page), ids(w))
+				}
+			}
+			if n != int64(len(matching)) {
+				k.add("Count=%d, Find returns %d rows", n, len(matching))
+			}
+		}
+	}
 	// single-record finders: only without explicit order/limit/offset
 	if len(cc.calls) == 0 && cc.order == "" {
 		byID := sortRows(matching, "id")
